@@ -282,11 +282,11 @@ InitsQ == I1("full1", 0..4, {"c"}) \cup I1("full1", {3}, {"s2", "r"})
           \cup INd("nd", {<<3, 2>>}, {<<"s2", "r">>}) \cup INd("nd", {<<2, 0>>}, {<<"c", "c">>})
           \cup INd("nd", {<<2, 1, 3>>}, {<<"r", "s2", "c">>})
 InitsT == I1("full1", 0..6, Layouts)
-          \cup I1("chain1", 0..5, Layouts)
+          \cup I1("chain1", {1, 3}, Layouts)
           \cup I1("nd", {0, 1, 2, 3, 6}, Layouts)
-          \cup INd("nd", {<<a, b>> : a \in {0, 1, 2, 4}, b \in {0, 1, 3, 6}}, Lays2 \cup {<<"c", "r">>})
-          \cup INd("nd", {<<2, 1, 3>>, <<1, 2, 0>>, <<3, 3, 2>>, <<0, 2, 1>>, <<4, 1, 2>>, <<2, 6, 1>>}, Lays3 \cup {<<"s2", "r", "r">>})
-InitsT3 == I1("chain1", {3}, Layouts)       \* chains of three links
+          \cup INd("nd", {<<0, 3>>, <<1, 1>>, <<2, 4>>, <<3, 2>>, <<4, 0>>, <<6, 1>>, <<1, 6>>}, Lays2)
+          \cup INd("nd", {<<2, 1, 3>>, <<1, 2, 0>>, <<3, 3, 2>>, <<0, 2, 1>>}, Lays3)
+InitsT3 == I1("chain1", {3}, {"r"})       \* chains of three links
 InitsRefute == I1("full1", {2}, {"c"})
 
 ---------------------------------------------------------------------------
